@@ -141,6 +141,20 @@ func avroTypesOf(P *Program) map[string]map[string]bool {
 			}
 		}
 	}
+	// what the folded dispatcher builds for each schema type (E-CP): independent of how the dispatch is written
+	if d := dispatchByFold(P); d.ok {
+		for _, row := range append(append([]*dispRow{}, d.rows...), d.extra...) {
+			st := row.st
+			if i := strings.Index(st, "/"); i >= 0 {
+				st = st[:i]
+			}
+			for _, cv := range row.codecs {
+				if T, _ := codecTypeOf(cv); T != nil {
+					add(typeKey(T), st)
+				}
+			}
+		}
+	}
 	return out
 }
 
